@@ -366,6 +366,17 @@ func genTxns(r *sim.Rand, flows []flowSpec, perURL int, maxURLs int) []txn {
 			default:
 				t.Query = "mode=" + v
 			}
+			if t.Query != "" && r.Chance(1, 6) {
+				// another pair of the query string cannot be decoded; the required parameter is there all the same
+				switch r.Intn(3) {
+				case 0:
+					t.Query += "&note=%zz"
+				case 1:
+					t.Query = "note=50%&" + t.Query
+				default:
+					t.Query += "&a;b=1"
+				}
+			}
 			t.Status = sim.Pick(r, []int{200, 200, 404, 500})
 			out = append(out, t)
 		}
